@@ -32,6 +32,9 @@ func (k Keeper) BeginBlocker(ctx context.Context) error {
 		default:
 			err = fmt.Errorf("invalid auction status %s", auction.GetStatus())
 		}
+		if err != nil {
+			return err
+		}
 	}
-	return err
+	return nil
 }
